@@ -660,7 +660,9 @@ void __wrap_libxmp_process_fx(struct context_data *ctx, struct channel_data *xc,
 /* ------------------------------------------------------------------ */
 /* synthetic modules                                                   */
 /* ------------------------------------------------------------------ */
-static long g_carry_modules, g_carry_jumps, g_hostile_spd, g_modesw, g_modesw_ok, g_modesw_seqdrop, g_modesw_lastseq;
+static int g_marathon;
+static long g_marathon_cases, g_marathon_wraps3, g_marathon_wraps3_reset;
+static long g_carry_modules, g_carry_jumps, g_hostile_spd, g_marathon_cases, g_marathon_wraps3, g_marathon_wraps3_reset, g_modesw, g_modesw_ok, g_modesw_seqdrop, g_modesw_lastseq;
 static const int flow_fx[] = {
 	FX_JUMP, FX_BREAK, FX_IT_BREAK, FX_EXTENDED, FX_EXTENDED, FX_PATT_DELAY, FX_IT_ROWDELAY, FX_SPEED, FX_SPEED,
 	FX_S3M_SPEED, FX_S3M_BPM, FX_IT_BPM, FX_ICE_SPEED, FX_LINE_JUMP, FX_SPEED_CP, FX_ULT_TEMPO, FX_GLOBALVOL,
@@ -704,6 +706,8 @@ static int create_synth(struct context_data *ctx, char *desc, size_t dsz)
 	/* "loop carry": a pattern-loop start recorded on a high row of a long pattern, the loop end effect in the next,
 	 * shorter pattern without a loop start of its own: the loop target lies beyond the pattern being played */
 	int carry = vrng_chance(35), carry_rows[2] = { 0, 0 };
+	if (g_marathon)
+		carry = 0;
 
 	libxmp_load_prologue(ctx);
 	mod->chn = vrng_range(1, 8);
@@ -727,6 +731,11 @@ static int create_synth(struct context_data *ctx, char *desc, size_t dsz)
 	}
 	if (vrng_chance(85))
 		mod->xxo[0] = vrng_below(mod->pat);
+	if (g_marathon) {
+		mod->len = vrng_range(2, 4);
+		for (i = 0; i < mod->len; i++)
+			mod->xxo[i] = vrng_below(mod->pat);
+	}
 	if (carry) {
 		if (mod->len < 2)
 			mod->len = 2;
@@ -744,6 +753,8 @@ static int create_synth(struct context_data *ctx, char *desc, size_t dsz)
 		mod->spd = hostile[vrng_below(8)];
 		g_hostile_spd++;
 	}
+	if (g_marathon)
+		mod->spd = vrng_range(1, 3);
 	mod->bpm = vrng_chance(70) ? 125 : vrng_range(20, 255);
 
 	if (libxmp_init_pattern(mod) < 0)
@@ -754,6 +765,8 @@ static int create_synth(struct context_data *ctx, char *desc, size_t dsz)
 			rows = vrng_range(1, 64);
 		if (carry && i < 2)
 			rows = carry_rows[i];
+		if (g_marathon)
+			rows = vrng_range(1, 6);
 		if (libxmp_alloc_pattern_tracks(mod, i, rows) < 0)
 			return -1;
 	}
@@ -800,6 +813,8 @@ static int create_synth(struct context_data *ctx, char *desc, size_t dsz)
 		mod->xxs[i].data += 4;
 	}
 	density = vrng_range((quirk & QUIRK_VIRTUAL) ? 10 : 2, 25);
+	if (g_marathon)
+		density = vrng_range(0, 6);
 	for (i = 0; i < mod->pat; i++) {
 		for (j = 0; j < mod->chn; j++) {
 			struct xmp_track *t = mod->xxt[mod->xxp[i]->index[j]];
@@ -1846,60 +1861,13 @@ static int run_modeprobe(void)
 	return 0;
 }
 
-static int run_case(uint64_t cs, int nframes, const char *modname)
+/* everything that is reported right after a successful xmp_start_player (first start or a restart of the player at another
+ * rate / format inside the case): module tables for the driver, sequence labels, OrdWF, header speed, start-up and
+ * libxmp_virt_on correspondence.  Returns 1 when the case must end (stale sequence label). */
+static int after_start(xmp_context c, struct context_data *ctx, int speed0, int *fails)
 {
-	xmp_context c;
-	struct context_data *ctx;
-	static const int rates[] = { 4000, 4000, 8000, 11025, 22050, 44100, 48000, 49170, 49170 };
-	static const double tfs[] = { 0.1, 0.25, 0.5, 1.0, 1.0, 2.0, 3.9, 4.0, 7.5, 10.0, 10.0, 25.0, 100.0 };
-	int rate, format, voices, i, ret, fails = 0, prev_loop = -1, stopped = 0, ends = 0;
-	int tf_mode, tf_called = 0, speed0, pending_delay = 0, inject_pending = 0;
-	int pb_mode, pb_loop, pb_ended = 0, modesw_pct;
-	int synth = !strcmp(modname, "@synth");
-	char desc[256] = "";
-	int pre[NST], post[NST];
-
-	vrng_seed(cs);
-	g_virt_fail_reported = 0;
-	g_nseen = 0;
-	c = xmp_create_context();
-	ctx = (struct context_data *)c;
-	if (synth) {
-		if (create_synth(ctx, desc, sizeof(desc)) < 0) {
-			printf("N synth_unloadable 1\n");
-			xmp_release_module(c);
-			xmp_free_context(c);
-			return -1;
-		}
-	} else if (xmp_load_module(c, modname) < 0) {
-		xmp_free_context(c);
-		return -1;
-	}
-	rate = rates[vrng_below(9)];
-	format = vrng_below(8);
-	voices = vrng_chance(60) ? 128 : (vrng_chance(50) ? vrng_range(1, 8) : vrng_range(9, 64));
-	if ((ctx->m.quirk & QUIRK_VIRTUAL) && vrng_chance(45))
-		voices = vrng_range(1, 6);	/* few voices + NNA: voice stealing and failed allocations */
-	tf_mode = vrng_below(10);	/* 0,1: set a tempo factor right after start; 2: also mid-play */
-	pb_mode = vrng_below(3);	/* 0: xmp_play_frame only; 1: now and then a xmp_play_buffer call; 2: half of the steps */
-	pb_loop = vrng_below(3);	/* loop limit of most buffer calls of this case */
-	modesw_pct = vrng_chance(40) ? 3 : 0;	/* player-mode / timing switches between the frames */
-	if (voices != 128)
-		xmp_set_player(c, XMP_PLAYER_VOICES, voices);
-	speed0 = ctx->p.speed;
-	printf("B case %llu %s rate=%d fmt=%d voices=%d tfmode=%d pb=%d/%d msw=%d %s\n", (unsigned long long)cs, modname, rate, format,
-	       voices, tf_mode, pb_mode, pb_loop, modesw_pct, desc);
-	/* if the library aborts inside this case the buffered stdout may be lost: name the case on stderr */
-	fprintf(stderr, "CASE case %llu %s rate=%d fmt=%d voices=%d tfmode=%d %s\n", (unsigned long long)cs, modname, rate,
-		format, voices, tf_mode, desc);
-	fflush(stdout);
-	ret = xmp_start_player(c, rate, format);
-	if (ret < 0) {
-		printf("N start_failed 1\nZ\n");
-		xmp_release_module(c);
-		xmp_free_context(c);
-		return -1;
-	}
+	int post[NST];
+	(void)c;
 	dump_module(ctx);
 	{
 		/* "the sequence index is valid": every order is labelled with a kept sequence or 0xff; xmp_set_position adopts the
@@ -1909,9 +1877,6 @@ static int run_case(uint64_t cs, int nframes, const char *modname)
 		if (bad >= 0) {
 			printf("O sequence:control_table order %d is labelled with sequence %d but the module has %d sequence(s) (xxo[%d] = %d)\nZ\n",
 			       bad, ctx->p.sequence_control[bad], ctx->m.num_sequences, bad, ctx->m.mod.xxo[bad]);
-			xmp_end_player(c);
-			xmp_release_module(c);
-			xmp_free_context(c);
 			return 1;
 		}
 	}
@@ -1941,11 +1906,85 @@ static int run_case(uint64_t cs, int nframes, const char *modname)
 		const char *bad = check_vinv(ctx);
 		if (bad) {
 			printf("O virt:start after xmp_start_player: %s\n", bad);
-			fails++;
+			(*fails)++;
 		}
 		printf("D von %d %d %d\nE von %d %d %d\n", ctx->p.virt.num_tracks, ctx->s.numvoc,
 		       (ctx->m.quirk & QUIRK_VIRTUAL) ? 1 : 0, ctx->p.virt.virt_channels, ctx->p.virt.maxvoc,
 		       ctx->p.virt.virt_used);
+	}
+	return 0;
+}
+
+static int run_case(uint64_t cs, int nframes, const char *modname)
+{
+	xmp_context c;
+	struct context_data *ctx;
+	static const int rates[] = { 4000, 4000, 8000, 11025, 22050, 44100, 48000, 49170, 49170 };
+	static const double tfs[] = { 0.1, 0.25, 0.5, 1.0, 1.0, 2.0, 3.9, 4.0, 7.5, 10.0, 10.0, 25.0, 100.0 };
+	int rate, format, voices, i, ret, fails = 0, prev_loop = -1, stopped = 0, ends = 0;
+	int tf_mode, tf_called = 0, speed0, pending_delay = 0, inject_pending = 0;
+	int pb_mode, pb_loop, pb_ended = 0, modesw_pct, marathon, restart_pm, max_loop = 0;
+	int synth = !strcmp(modname, "@synth");
+	char desc[256] = "";
+	int pre[NST], post[NST];
+
+	vrng_seed(cs);
+	g_virt_fail_reported = 0;
+	g_nseen = 0;
+	/* "marathon": a short multi-order module (synthetic: 2..4 orders of 1..6 rows at speed 1..3) played on and on with plain
+	 * xmp_play_frame and no position-control call after an optional player-mode switch at the start: many wraps, the loop
+	 * counter clause over long runs in every flow mode */
+	marathon = vrng_chance(25);
+	g_marathon = marathon;
+	c = xmp_create_context();
+	ctx = (struct context_data *)c;
+	if (synth) {
+		if (create_synth(ctx, desc, sizeof(desc)) < 0) {
+			printf("N synth_unloadable 1\n");
+			xmp_release_module(c);
+			xmp_free_context(c);
+			return -1;
+		}
+	} else if (xmp_load_module(c, modname) < 0) {
+		xmp_free_context(c);
+		return -1;
+	}
+	rate = rates[vrng_below(9)];
+	format = vrng_below(8);
+	voices = vrng_chance(60) ? 128 : (vrng_chance(50) ? vrng_range(1, 8) : vrng_range(9, 64));
+	if ((ctx->m.quirk & QUIRK_VIRTUAL) && vrng_chance(45))
+		voices = vrng_range(1, 6);	/* few voices + NNA: voice stealing and failed allocations */
+	tf_mode = vrng_below(10);	/* 0,1: set a tempo factor right after start; 2: also mid-play */
+	pb_mode = vrng_below(3);	/* 0: xmp_play_frame only; 1: now and then a xmp_play_buffer call; 2: half of the steps */
+	pb_loop = vrng_below(3);	/* loop limit of most buffer calls of this case */
+	modesw_pct = vrng_chance(40) ? 3 : 0;	/* player-mode / timing switches between the frames */
+	restart_pm = vrng_chance(35) ? 12 : 0;	/* per mille of the steps: xmp_end_player + xmp_start_player at another rate / format */
+	if (marathon) {
+		pb_mode = 0;
+		restart_pm = 0;
+		g_marathon_cases++;
+	}
+	if (voices != 128)
+		xmp_set_player(c, XMP_PLAYER_VOICES, voices);
+	speed0 = ctx->p.speed;
+	printf("B case %llu %s rate=%d fmt=%d voices=%d tfmode=%d pb=%d/%d msw=%d rs=%d mar=%d %s\n", (unsigned long long)cs, modname, rate, format,
+	       voices, tf_mode, pb_mode, pb_loop, modesw_pct, restart_pm, marathon, desc);
+	/* if the library aborts inside this case the buffered stdout may be lost: name the case on stderr */
+	fprintf(stderr, "CASE case %llu %s rate=%d fmt=%d voices=%d tfmode=%d %s\n", (unsigned long long)cs, modname, rate,
+		format, voices, tf_mode, desc);
+	fflush(stdout);
+	ret = xmp_start_player(c, rate, format);
+	if (ret < 0) {
+		printf("N start_failed 1\nZ\n");
+		xmp_release_module(c);
+		xmp_free_context(c);
+		return -1;
+	}
+	if (after_start(c, ctx, speed0, &fails)) {
+		xmp_end_player(c);
+		xmp_release_module(c);
+		xmp_free_context(c);
+		return 1;
 	}
 	if (tf_mode <= 2) {
 		double tf = tfs[vrng_below(13)];
@@ -1953,10 +1992,38 @@ static int run_case(uint64_t cs, int nframes, const char *modname)
 			tf_called = 1;
 	}
 
+	if (marathon) {
+		/* the player mode of the whole run: the module's own, or one of the xmp_set_player(MODE) values */
+		if (vrng_chance(60) && do_mode_switch(c, ctx, &stopped) < 0)
+			fails++;
+		modesw_pct = 0;
+	}
 	for (i = 0; i < nframes; i++) {
 		int nctl = 0;
+		if (restart_pm && (int)vrng_below(1000) < restart_pm) {
+			/* the player is shut down and started again, mostly at a higher rate and in 16-bit stereo: the time factor (incl. an
+			 * accepted tempo factor) survives, the tick size is recomputed for the new rate */
+			xmp_end_player(c);
+			rate = vrng_chance(60) ? (vrng_chance(50) ? XMP_MAX_SRATE : 48000) : rates[vrng_below(9)];
+			format = vrng_chance(50) ? 0 : (int)vrng_below(8);
+			speed0 = ctx->p.speed;
+			printf("N player_restarts 1\n");
+			if (xmp_start_player(c, rate, format) < 0) {
+				printf("N restart_failed 1\nZ\n");
+				xmp_release_module(c);
+				xmp_free_context(c);
+				return fails;
+			}
+			if (after_start(c, ctx, speed0, &fails))
+				break;
+			prev_loop = -1;
+			stopped = 0;
+			ends = 0;
+			pb_ended = 0;
+			inject_pending = 0;
+		}
 		/* control calls and injected events between frames */
-		if (vrng_chance(stopped ? 60 : 9)) {
+		if (!marathon && vrng_chance(stopped ? 60 : 9)) {
 			if (vrng_chance(22)) {
 				/* reposition onto an arbitrary order, then set a row before the next frame */
 				do_control(c, ctx, &stopped, 0);
@@ -2039,6 +2106,8 @@ static int run_case(uint64_t cs, int nframes, const char *modname)
 		get_state(ctx, post);
 
 		if (ret == 0) {
+			if (ctx->p.loop_count > max_loop)
+				max_loop = ctx->p.loop_count;
 			if (pb_ended)
 				g_pb_after_end++;
 			report_ok_frame(c, ctx, pre, post, i, rate, format, tf_called, &prev_loop, synth ? desc : modname, &fails);
@@ -2069,6 +2138,11 @@ static int run_case(uint64_t cs, int nframes, const char *modname)
 			break;
 		}
 	}
+	if (marathon && max_loop >= 3) {
+		g_marathon_wraps3++;
+		if (ctx->m.flow_mode & FLOW_LOOP_PATTERN_RESET)
+			g_marathon_wraps3_reset++;
+	}
 	/* tick-size correspondence on the final configuration of this case */
 	{
 		int bpm = ctx->p.bpm;
@@ -2094,12 +2168,12 @@ static void print_stats(void)
 	printf("N frames %ld\nN ends %ld\nN ctl %ld\nN inject %ld\nN repos %ld\nN rowadv %ld\nN ordadv %ld\nN loopinc %ld\n"
 	       "N tfcalls %ld\nN capped %ld\nN minclamp %ld\nN st26 %ld\nN assume %ld\nN vops %ld\nN vdump %ld\nN reloc %ld\nN vfail %ld\nN steal %ld\n"
 	       "N ordwf_seq_rst %ld\nN ordwf_seq_entry %ld\nN ordwf_seq_reach %ld\nN ordwf_seq_fail %ld\nN tf_accepted %ld\nN tf_refused %ld\nN vfieldops %ld\nN vfielddump %ld\n"
-	       "N fx_calls %ld\nN fx_dumped %ld\nN fx_dumped_flowfx %ld\nN loopcarry_modules %ld\nN loopjump_beyond_pattern %ld\nN hostile_header_speed %ld\nN mode_switches %ld\nN mode_switches_accepted %ld\nN mode_switches_fewer_sequences %ld\nN mode_switches_from_last_sequence %ld\n"
+	       "N fx_calls %ld\nN fx_dumped %ld\nN fx_dumped_flowfx %ld\nN loopcarry_modules %ld\nN loopjump_beyond_pattern %ld\nN hostile_header_speed %ld\nN marathon_cases %ld\nN marathon_cases_3_wraps %ld\nN marathon_cases_3_wraps_pattern_reset_mode %ld\nN mode_switches %ld\nN mode_switches_accepted %ld\nN mode_switches_fewer_sequences %ld\nN mode_switches_from_last_sequence %ld\n"
 	       "N pbuf_calls %ld\nN pbuf_frames %ld\nN pbuf_end %ld\nN pbuf_end_looplimit %ld\nN pbuf_noframe %ld\nN pbuf_multiframe %ld\nN pbuf_steps_after_end %ld\nN pbuf_reset %ld\n",
 	       g_frames, g_ends, g_ctl, g_inject, g_repos, g_rowadv, g_ordadv, g_loopinc, g_tfcalls, g_capped, g_minclamp,
 	       g_st26, g_assume, g_stat_vops, g_stat_vdump, g_stat_reloc, g_stat_vfail, g_stat_steal, g_ow_rst, g_ow_entry,
 	       g_ow_reach, g_ow_fail, g_tf_acc, g_tf_ref, g_stat_fops, g_stat_fdump,
-	       g_fx_calls, g_fx_dumped, g_fx_flow_dumped, g_carry_modules, g_carry_jumps, g_hostile_spd, g_modesw, g_modesw_ok, g_modesw_seqdrop, g_modesw_lastseq,
+	       g_fx_calls, g_fx_dumped, g_fx_flow_dumped, g_carry_modules, g_carry_jumps, g_hostile_spd, g_marathon_cases, g_marathon_wraps3, g_marathon_wraps3_reset, g_modesw, g_modesw_ok, g_modesw_seqdrop, g_modesw_lastseq,
 	       g_pb_calls, g_pb_frames, g_pb_end, g_pb_end_limit, g_pb_zero, g_pb_multi, g_pb_after_end, g_pb_reset);
 }
 
